@@ -300,6 +300,12 @@ type point struct {
 // instruction `visit` is called: it returns stop=true to not continue past
 // this instruction on this path.  Each instruction is visited at most once.
 func searchFrom(starts []point, visit func(in ssa.Instruction) (stop bool)) {
+	searchFromEdges(starts, visit, nil)
+}
+
+// searchFromEdges is searchFrom with edge pruning: follow(b, i) == false
+// means the i-th successor edge of b is not taken.
+func searchFromEdges(starts []point, visit func(in ssa.Instruction) (stop bool), follow func(b *ssa.BasicBlock, succ int) bool) {
 	seenBlock := map[*ssa.BasicBlock]bool{}
 	var work []point
 	work = append(work, starts...)
@@ -322,7 +328,10 @@ func searchFrom(starts []point, visit func(in ssa.Instruction) (stop bool)) {
 		if stopped {
 			continue
 		}
-		for _, s := range p.b.Succs {
+		for i, s := range p.b.Succs {
+			if follow != nil && !follow(p.b, i) {
+				continue
+			}
 			if !seenBlock[s] {
 				work = append(work, point{s, 0})
 			}
